@@ -80,6 +80,12 @@ enum {
 #ifndef PRIOS
 #define PRIOS {0, 0, 0, 0}
 #endif
+#ifndef CONCRETE_D
+#define CONCRETE_D 0  /* 1: durations are chosen from {0,1,2} (needed where the library divides by elapsed time) */
+#endif
+#ifndef BAMT_FULL
+#define BAMT_FULL 0   /* 1: buffer amounts range over all of uint64 */
+#endif
 #ifndef OBSERVE
 #define OBSERVE 0     /* 1: condition observes the resource guard via cmb_resourceguard_register, 2: via cmb_condition_subscribe */
 #endif
@@ -105,13 +111,17 @@ struct proc {
     int waiting, wait_arg;       /* what it is blocked on (W_*) */
     double wait_since;
     int64_t wait_prio;
-    uint64_t pool_held;
+    uint64_t pool_held, pool_req; int in_ppre; double ppre_time;
+    uint64_t *amt_ptr, amt_req;
+    double c_true_at; int c_must, c_src;
+    double prio_time;
     uint64_t timers[4]; int ntimers;
 };
 static struct proc P[4];
 
 static struct cmb_resource *R;
 static int owner = -1;
+static int barged;   /* some process took the free resource while a granted waiter had not yet run */
 static struct cmb_resourcepool *PL;
 static uint64_t poolcap;
 static struct cmb_buffer *B;
@@ -172,9 +182,26 @@ static uint64_t expected_events_for(int id)
     return n;
 }
 
-static void traj_add(struct traj *tr, double x)
+/* C14: observe the true state (public query) after every event; the history's latest sample must show it */
+static void observe(struct traj *tr, const struct cmb_timeseries *ts, double x)
 {
-    if (REC && tr->on && tr->n < 32) { tr->t[tr->n] = cmb_time(); tr->x[tr->n] = x; tr->n++; }
+    if (!REC || !tr->on) return;
+    uint64_t n = cmb_timeseries_count(ts);
+    sym_assert(n >= 1, "history has a sample once recording started");
+    if (n >= 1) {
+        sym_assert(ts->ds.xa[n - 1] == x, "the latest recorded sample equals the true state after every event");
+        sym_assert(ts->ta[n - 1] <= cmb_time(), "sample times do not lie in the future");
+    }
+    if (tr->n > 0 && tr->x[tr->n - 1] == x) return;            /* unchanged */
+    if (tr->n < 32) { tr->t[tr->n] = cmb_time(); tr->x[tr->n] = x; tr->n++; }
+}
+static void observe_all(void)
+{
+    observe(&trR, cmb_resource_history(R), (double)cmb_resource_in_use(R));
+    observe(&trP, cmb_resourcepool_get_history(PL), (double)cmb_resourcepool_in_use(PL));
+    observe(&trB, cmb_buffer_history(B), (double)cmb_buffer_level(B));
+    observe(&trO, cmb_objectqueue_history(OQ), (double)cmb_objectqueue_length(OQ));
+    observe(&trQ, cmb_priorityqueue_history(PQ), (double)cmb_priorityqueue_length(PQ));
 }
 
 /* A blocking call returned r != SUCCESS now: it must be exactly one undelivered notification for this
@@ -218,6 +245,21 @@ static void account_signal(int id, int64_t r, const char *unused)
     apply_delivery(id, hit);
 }
 
+/* C06: a waiter that had to wait and is now served must be the best (priority desc, waiting time asc) among the
+ * processes blocked on the same end of the same object since before this instant */
+static void check_service_order(int id, int kind, double since, double call_time)
+{
+    if (!(cmb_time() > call_time)) return;          /* did not (provably) wait */
+    for (int j = 0; j < NPROC; j++) {
+        if (j == id || P[j].finished || P[j].waiting != kind) continue;
+        if (!(P[j].wait_since < cmb_time())) continue;      /* arrived in this very instant: not "already waiting" */
+        if (P[j].prio_time == cmb_time() || P[id].prio_time == cmb_time()) continue;   /* re-ranked in the very instant of the grant */
+        sym_tag("after_barging", barged != 0);
+        sym_assert(!(P[j].wait_prio > P[id].wait_prio), "a lower-priority waiter is not served ahead of a higher-priority one that was already waiting");
+        sym_assert(!(P[j].wait_prio == P[id].wait_prio && P[j].wait_since < since), "among equal priorities the longest-waiting process is served first");
+    }
+}
+
 static void after_block(int id)
 {
     P[id].waiting = W_NONE;
@@ -226,15 +268,32 @@ static void after_block(int id)
 }
 
 /* ------------------------------------------------------------------ condition predicates */
+static int proc_index(const struct cmb_process *pp) { for (int i = 0; i < NPROC; i++) if (P[i].p == pp) return i; return -1; }
 static bool cpred(const struct cmb_condition *cv, const struct cmb_process *pp, const void *ctx)
 {
-    (void)cv; (void)pp;
-    return cstate >= cthr[(intptr_t)ctx];
+    (void)cv;
+    int i = proc_index(pp);
+    sym_assert(i == (int)(intptr_t)ctx, "the predicate is evaluated with the waiting process and its own context");
+    bool r = cstate >= cthr[(intptr_t)ctx];
+    if (r && i >= 0) P[i].c_true_at = cmb_time();
+    return r;
 }
 static bool cpred_free(const struct cmb_condition *cv, const struct cmb_process *pp, const void *ctx)
 {
-    (void)cv; (void)pp; (void)ctx;
-    return cmb_resource_available(R) > 0;
+    (void)cv; (void)ctx;
+    int i = proc_index(pp);
+    bool r = cmb_resource_available(R) > 0;
+    if (r && i >= 0) P[i].c_true_at = cmb_time();
+    return r;
+}
+/* a state change / signal happened now: every waiter whose predicate holds must be resumed at this instant */
+static int mark_satisfied_waiters(int src)
+{
+    int any = 0;
+    for (int i = 0; i < NPROC; i++) {
+        if (P[i].waiting == W_CWAIT && P[i].wait_arg == 0 && (OBSERVE ? owner < 0 : cstate >= cthr[i])) { P[i].c_must = 1; P[i].c_src = src; P[i].wait_since = cmb_time(); any = 1; }
+    }
+    return any;
 }
 
 /* ------------------------------------------------------------------ invariants checked after every event */
@@ -250,14 +309,36 @@ static void invariants(void)
     uint64_t sum = 0;
     for (int i = 0; i < NPROC; i++) {
         uint64_t h = cmb_resourcepool_held_by_process(PL, P[i].p);
-        sym_assert(h == P[i].pool_held, "pool held_by_process agrees with the shadow holding");
+        if (P[i].waiting == W_PACQ) {
+            /* blocked inside a multi-step acquisition: holds what it had plus a part of the request, or nothing if preempted */
+            sym_assert(h <= P[i].pool_held + P[i].pool_req, "a blocked acquirer holds at most its previous holding plus the request");
+        } else if (h == 0 && P[i].pool_held > 0 && !P[i].finished) {
+            /* lost everything without releasing: only a preempt by a strictly higher priority process may do that */
+            int culprit = 0;
+            for (int j = 0; j < NPROC; j++) if (j != i && (P[j].in_ppre || P[j].ppre_time == cmb_time()) && P[j].prio > P[i].prio) culprit = 1;
+            sym_assert(culprit, "pool units are only taken away by a preempt from a strictly higher priority process");
+            ledger_add(i, L_PREEMPT, CMB_PROCESS_PREEMPTED, cmb_time(), 0);
+            P[i].pool_held = 0;
+        } else sym_assert(h == P[i].pool_held, "pool held_by_process agrees with the shadow holding");
+        if (P[i].waiting == W_PACQ && h == 0 && P[i].pool_held > 0) {
+            /* a blocked acquirer that held something before its call and now holds nothing was preempted */
+            ledger_add(i, L_PREEMPT, CMB_PROCESS_PREEMPTED, cmb_time(), 0);
+            P[i].pool_held = 0;
+        }
         sum += h;
     }
     sym_assert(cmb_resourcepool_in_use(PL) == sum, "pool in_use equals the sum of the holdings");
     sym_assert(cmb_resourcepool_in_use(PL) <= poolcap, "pool in_use never exceeds the capacity");
     sym_assert(cmb_resourcepool_available(PL) == poolcap - sum, "pool available = capacity - in_use");
     /* C11 */
-    sym_assert(cmb_buffer_level(B) == buf_level, "buffer level = total put - total got");
+    {
+        uint64_t lvl = buf_level;
+        for (int i = 0; i < NPROC; i++) {
+            if (P[i].waiting == W_BPUT) lvl += P[i].amt_req - *P[i].amt_ptr;      /* part already pushed in by a blocked putter */
+            if (P[i].waiting == W_BGET) lvl -= *P[i].amt_ptr;                     /* part already taken by a blocked getter */
+        }
+        sym_assert(cmb_buffer_level(B) == lvl, "buffer level = total put - total got");
+    }
     sym_assert(cmb_buffer_level(B) <= bufcap, "buffer level within capacity");
     /* C12 */
     sym_assert(cmb_objectqueue_length(OQ) == (uint64_t)oq_n, "object queue length agrees with shadow");
@@ -265,6 +346,7 @@ static void invariants(void)
     uint64_t nlive = 0; for (int k = 0; k < pq_n; k++) nlive += pq[k].live;
     sym_assert(cmb_priorityqueue_length(PQ) == nlive, "priority queue length agrees with shadow");
     sym_assert(cmb_priorityqueue_length(PQ) <= qcap, "priority queue length within capacity");
+    if (REC) observe_all();
     /* C09: a finished process has nothing queued, holds nothing */
     for (int i = 0; i < NPROC; i++) {
         if (P[i].finished) {
@@ -279,21 +361,14 @@ static void invariants(void)
 static void shadow_end(int id, int stopped, void *val)
 {
     P[id].finished = 1; P[id].stopped = stopped; P[id].end_time = cmb_time(); P[id].exit_expected = val;
+    if (P[id].waiting == W_BPUT) buf_level += P[id].amt_req - *P[id].amt_ptr;    /* stopped while blocked: what it moved stays moved */
+    if (P[id].waiting == W_BGET) buf_level -= *P[id].amt_ptr;
     P[id].waiting = W_NONE;
     cancel_all_of(id);
-    if (owner == id) { owner = -1; traj_add(&trR, 0.0); }
-    if (P[id].pool_held) {
-        P[id].pool_held = 0;
-        uint64_t s = 0; for (int i = 0; i < NPROC; i++) s += P[i].pool_held;
-        traj_add(&trP, (double)s);
-    }
+    if (owner == id) { owner = -1; if (OBSERVE) (void)mark_satisfied_waiters(2); }
+    P[id].pool_held = 0;
 }
 
-static void pool_traj(void)
-{
-    uint64_t s = 0; for (int i = 0; i < NPROC; i++) s += P[i].pool_held;
-    traj_add(&trP, (double)s);
-}
 
 /* ------------------------------------------------------------------ the interpreter */
 static void step(int id, int op)
@@ -303,7 +378,10 @@ static void step(int id, int op)
     switch (op) {
     case OP_HOLD: case OP_HOLDZ: {
         double d = 0.0;
-        if (op == OP_HOLD) { d = sym_f64("d"); sym_assume(d >= 0.0); sym_assume(d <= 8.0); }
+        if (op == OP_HOLD) {
+            if (CONCRETE_D) d = (double)sym_choice(3, "dsel");
+            else { d = sym_f64("d"); sym_assume(d >= 0.0); sym_assume(d <= 8.0); }
+        }
         P[id].waiting = W_HOLD;
         int64_t r = cmb_process_hold(d);
         if (r == CMB_PROCESS_SUCCESS) sym_assert(cmb_time() == now + d, "hold returning success observes start + duration");
@@ -311,8 +389,9 @@ static void step(int id, int op)
         after_block(id);
         break; }
     case OP_TADD: {
-        double dt = sym_f64("dt"); int64_t sig = sym_range(1, 3, "tsig");
-        sym_assume(dt >= 0.0); sym_assume(dt <= 8.0);
+        double dt; int64_t sig = sym_range(1, 3, "tsig");
+        if (CONCRETE_D) dt = (double)sym_choice(3, "dtsel");
+        else { dt = sym_f64("dt"); sym_assume(dt >= 0.0); sym_assume(dt <= 8.0); }
         if (P[id].ntimers >= 4) break;
         uint64_t h = cmb_process_timer_add(me, dt, sig);
         P[id].timers[P[id].ntimers++] = h;
@@ -398,7 +477,7 @@ static void step(int id, int op)
         if (j >= NPROC || !P[j].started || P[j].finished) break;
         int64_t pr = sym_i64("newprio");
         cmb_process_priority_set(P[j].p, pr);
-        P[j].prio = pr;
+        P[j].prio = pr; P[j].prio_time = now;
         if (P[j].waiting >= W_ACQ) P[j].wait_prio = pr;
         break; }
     /* ---------------- resource (C05) */
@@ -416,14 +495,15 @@ static void step(int id, int op)
             }
             sym_assert(owner == -1, "acquire/preempt succeeds only while no other process holds the resource");
             owner = id;
-            traj_add(&trR, 1.0);
+            if (!(cmb_time() > now)) { for (int j = 0; j < NPROC; j++) if (j != id && P[j].waiting == W_ACQ && !P[j].finished) barged = 1; }
+            if (op == OP_ACQ) check_service_order(id, W_ACQ, P[id].wait_since, now);
         } else account_signal(id, r, "acquire");
         after_block(id);
         break; }
     case OP_REL:
         if (owner != id) break;
         owner = -1;
-        traj_add(&trR, 0.0);
+        if (OBSERVE) (void)mark_satisfied_waiters(2);
         cmb_resource_release(R);
         break;
     /* ---------------- pool (C07) */
@@ -431,11 +511,14 @@ static void step(int id, int op)
         uint64_t n = (uint64_t)sym_range(1, 4, "pamount");
         sym_assume(n <= poolcap);
         uint64_t before = P[id].pool_held;
-        P[id].waiting = W_PACQ; P[id].wait_since = now; P[id].wait_prio = P[id].prio;
+        P[id].waiting = W_PACQ; P[id].wait_since = now; P[id].wait_prio = P[id].prio; P[id].pool_req = n;
+        if (op == OP_PPRE) { P[id].in_ppre = 1; P[id].ppre_time = now; }
         /* preemption bookkeeping: who holds what before the call, to attribute mugged units */
         uint64_t held0[4]; for (int i = 0; i < NPROC; i++) held0[i] = P[i].pool_held;
         int64_t r = op == OP_PACQ ? cmb_resourcepool_acquire(PL, n) : cmb_resourcepool_preempt(PL, n);
         (void)held0;
+        P[id].in_ppre = 0;
+        before = P[id].pool_held;      /* may have been zeroed by a preemption observed while blocked */
         if (r == CMB_PROCESS_SUCCESS) {
             sym_assert(cmb_resourcepool_held_by_process(PL, me) == before + n, "successful pool acquire/preempt adds exactly the requested amount");
             P[id].pool_held = before + n;
@@ -448,15 +531,20 @@ static void step(int id, int op)
                     ledger_add(i, L_PREEMPT, CMB_PROCESS_PREEMPTED, cmb_time(), 0);
                 }
             }
-            pool_traj();
         } else {
-            account_signal(id, r, "pool acquire");
+            int have = 0;
+            for (int k = 0; k < nled; k++) if (led[k].tgt == id && !led[k].delivered && !led[k].cancelled && led[k].sig == r && led[k].due == cmb_time()) have = 1;
+            int culprit = 0;
+            for (int j = 0; j < NPROC; j++) if (j != id && (P[j].in_ppre || P[j].ppre_time == cmb_time()) && P[j].prio > P[id].prio) culprit = 1;
+            if (r == CMB_PROCESS_PREEMPTED && !have && culprit && cmb_resourcepool_held_by_process(PL, me) == 0) {
+                /* mugged of a partial grab made during this call: nothing the harness could have seen from outside */
+                cancel_timers_of(id);
+            } else account_signal(id, r, "pool acquire");
             if (r == CMB_PROCESS_PREEMPTED && P[id].pool_held == 0) {
                 sym_assert(cmb_resourcepool_held_by_process(PL, me) == 0, "a preempted process holds nothing of the pool");
             } else {
                 sym_assert(cmb_resourcepool_held_by_process(PL, me) == P[id].pool_held, "an interrupted pool acquire leaves the caller holding what it held before the call");
             }
-            pool_traj();
         }
         after_block(id);
         break; }
@@ -465,17 +553,17 @@ static void step(int id, int op)
         uint64_t n = P[id].pool_held;
         if (op == OP_PREL) { n = (uint64_t)sym_range(1, 4, "prel"); sym_assume(n <= P[id].pool_held); }
         P[id].pool_held -= n;
-        pool_traj();
         cmb_resourcepool_release(PL, n);
         sym_assert(cmb_resourcepool_held_by_process(PL, me) == P[id].pool_held, "release lowers the caller's holding by exactly the amount");
         break; }
     /* ---------------- buffer (C11) */
     case OP_BPUT: case OP_BGET: {
-        uint64_t n = sym_u64("bamount");
+        uint64_t n = BAMT_FULL ? sym_u64("bamount") : (uint64_t)sym_range(0, 6, "bamount");
         if (op == OP_BPUT) sym_assume(n > 0);
         uint64_t amt = n;
         uint64_t lvl0 = buf_level;
         (void)lvl0;
+        P[id].amt_ptr = &amt; P[id].amt_req = n;
         P[id].waiting = op == OP_BPUT ? W_BPUT : W_BGET; P[id].wait_since = now; P[id].wait_prio = P[id].prio;
         int64_t r = op == OP_BPUT ? cmb_buffer_put(B, &amt) : cmb_buffer_get(B, &amt);
         uint64_t moved = op == OP_BPUT ? n - amt : amt;
@@ -484,7 +572,6 @@ static void step(int id, int op)
         sym_tag("buffer_partial", moved != 0 && moved != n);
         /* the level bookkeeping for partial transfers is done by the per-transfer hook below (levels change while blocked) */
         if (op == OP_BPUT) buf_level += moved; else buf_level -= moved;
-        traj_add(&trB, (double)buf_level);
         after_block(id);
         break; }
     /* ---------------- object queue (C12) */
@@ -493,7 +580,7 @@ static void step(int id, int op)
         int tag = oq_next++;
         P[id].waiting = W_OPUT; P[id].wait_since = now; P[id].wait_prio = P[id].prio;
         int64_t r = cmb_objectqueue_put(OQ, tag == 3 ? NULL : (void *)&otags[tag]);   /* object #3 is NULL */
-        if (r == CMB_PROCESS_SUCCESS) { oq_fifo[oq_n++] = tag; traj_add(&trO, (double)oq_n); }
+        if (r == CMB_PROCESS_SUCCESS) { oq_fifo[oq_n++] = tag; check_service_order(id, W_OPUT, P[id].wait_since, now); }
         else account_signal(id, r, "objectqueue put");
         after_block(id);
         break; }
@@ -503,12 +590,12 @@ static void step(int id, int op)
         int64_t r = cmb_objectqueue_get(OQ, &obj);
         if (r == CMB_PROCESS_SUCCESS) {
             sym_assert(oq_n > 0, "a successful get delivers an object that was put");
+            check_service_order(id, W_OGET, P[id].wait_since, now);
             if (oq_n > 0) {
                 int tag = oq_fifo[0];
                 sym_assert(obj == (tag == 3 ? NULL : (void *)&otags[tag]), "object queue delivers in put order");
                 for (int k = 1; k < oq_n; k++) oq_fifo[k - 1] = oq_fifo[k];
                 oq_n--;
-                traj_add(&trO, (double)oq_n);
             }
         } else { account_signal(id, r, "objectqueue get"); sym_assert(obj == NULL, "a get that does not succeed delivers nothing"); }
         after_block(id);
@@ -524,7 +611,6 @@ static void step(int id, int op)
         if (r == CMB_PROCESS_SUCCESS) {
             pq[k].tag = k; pq[k].prio = pr; pq[k].handle = h; pq[k].live = 1; pq[k].seq = pq_seq++; pq_n++;
             uint64_t nl = 0; for (int m = 0; m < pq_n; m++) nl += pq[m].live;
-            traj_add(&trQ, (double)nl);
         } else account_signal(id, r, "priorityqueue put");
         after_block(id);
         break; }
@@ -536,11 +622,11 @@ static void step(int id, int op)
             int best = -1;
             for (int m = 0; m < pq_n; m++) if (pq[m].live && (best < 0 || pq[m].prio > pq[best].prio || (pq[m].prio == pq[best].prio && pq[m].seq < pq[best].seq))) best = m;
             sym_assert(best >= 0, "a successful get delivers an object that was put");
+            check_service_order(id, W_QGET, P[id].wait_since, now);
             if (best >= 0) {
                 sym_assert(obj == (void *)&otags[pq[best].tag], "priority queue delivers highest priority first, FIFO among equals");
                 pq[best].live = 0;
                 uint64_t nl = 0; for (int m = 0; m < pq_n; m++) nl += pq[m].live;
-                traj_add(&trQ, (double)nl);
             }
         } else { account_signal(id, r, "priorityqueue get"); sym_assert(obj == NULL, "a get that does not succeed delivers nothing"); }
         after_block(id);
@@ -553,7 +639,6 @@ static void step(int id, int op)
             sym_assert(cmb_priorityqueue_cancel(PQ, pq[m].handle), "cancel by handle finds the queued object");
             pq[m].live = 0;
             uint64_t nl = 0; for (int k = 0; k < pq_n; k++) nl += pq[k].live;
-            traj_add(&trQ, (double)nl);
         } else {
             int64_t pr = sym_i64("qreprio");
             cmb_priorityqueue_reprioritize(PQ, pq[m].handle, pr);
@@ -571,10 +656,13 @@ static void step(int id, int op)
     case OP_CWAIT: {
         cthr[id] = sym_range(0, 3, "cthr");
         P[id].waiting = W_CWAIT; P[id].wait_since = now; P[id].wait_prio = P[id].prio; P[id].wait_arg = 0;
+        P[id].c_true_at = -1.0; P[id].c_must = 0;
         int64_t r = OBSERVE ? cmb_condition_wait(CV, cpred_free, 0) : cmb_condition_wait(CV, cpred, (void *)(intptr_t)id);
         if (r == CMB_PROCESS_SUCCESS) {
-            sym_assert(P[id].wait_arg == 1, "a condition waiter is resumed with success only by a signal that found its predicate true");
+            sym_assert(P[id].c_true_at == cmb_time(), "a condition waiter is resumed with success only at an instant at which its predicate was found true");
+            sym_assert(P[id].c_must == 1, "no condition waiter is resumed whose predicate was false at the signal");
         } else account_signal(id, r, "condition wait");
+        P[id].c_must = 0;
         after_block(id);
         break; }
     case OP_CSET:
@@ -582,8 +670,7 @@ static void step(int id, int op)
         break;
     case OP_CSIG: {
         /* expected: exactly the waiters whose predicate holds now */
-        int any = 0;
-        for (int i = 0; i < NPROC; i++) if (P[i].waiting == W_CWAIT && P[i].wait_arg == 0 && (OBSERVE ? owner < 0 : cstate >= cthr[i])) { P[i].wait_arg = 1; P[i].wait_since = now; any = 1; }
+        int any = mark_satisfied_waiters(1);
         bool r = cmb_condition_signal(CV);
         sym_assert(r == (any != 0), "condition_signal reports whether any waiter was satisfied");
         break; }
@@ -595,6 +682,7 @@ static void step(int id, int op)
         bool r = cancel ? cmb_condition_cancel(CV, P[j].p) : cmb_condition_remove(CV, P[j].p);
         sym_assert(r == (waitingj != 0), "condition cancel/remove reports whether the process was waiting");
         if (waitingj && cancel) ledger_add(j, L_CANCEL, CMB_PROCESS_CANCELLED, now, 0);
+        if (waitingj) P[j].c_must = 0;
         if (waitingj && !cancel) P[j].wait_arg = 2;    /* removed: stays suspended until something else resumes it */
         break; }
     case OP_RECON:
@@ -623,7 +711,9 @@ static void check_history(struct cmb_timeseries *ts, const struct traj *tr, cons
 
 void h_sim(void)
 {
+#ifndef DEBUGLOG
     cmb_logger_flags_off(0xFFFFFFFFu);
+#endif
     cmb_event_queue_initialize(0.0);
     poolcap = POOLCAP > 0 ? (uint64_t)POOLCAP : (uint64_t)sym_range(1, 4, "poolcap");
     bufcap = BUFCAP > 0 ? (uint64_t)BUFCAP : BUFCAP < 0 ? UINT64_MAX : (uint64_t)sym_range(1, 4, "bufcap");
@@ -637,11 +727,12 @@ void h_sim(void)
     if (OBSERVE == 1) cmb_resourceguard_register(&R->guard, &CV->guard);
     if (OBSERVE == 2) cmb_condition_subscribe(CV, &R->guard);
     if (REC) {
-        cmb_resource_start_recording(R); trR.on = 1; traj_add(&trR, 0.0);
-        cmb_resourcepool_start_recording(PL); trP.on = 1; traj_add(&trP, 0.0);
-        cmb_buffer_recording_start(B); trB.on = 1; traj_add(&trB, 0.0);
-        cmb_objectqueue_recording_start(OQ); trO.on = 1; traj_add(&trO, 0.0);
-        cmb_priorityqueue_recording_start(PQ); trQ.on = 1; traj_add(&trQ, 0.0);
+        cmb_resource_start_recording(R); trR.on = 1;
+        cmb_resourcepool_start_recording(PL); trP.on = 1;
+        cmb_buffer_recording_start(B); trB.on = 1;
+        cmb_objectqueue_recording_start(OQ); trO.on = 1;
+        cmb_priorityqueue_recording_start(PQ); trQ.on = 1;
+        observe_all();
     }
     int use_e = 0;
     for (int i = 0; i < NPROC; i++) for (int k = 0; k < MAXSTEP; k++) if (scripts[i][k] == OP_WAITE || scripts[i][k] == OP_CANCELE) use_e = 1;
@@ -652,7 +743,7 @@ void h_sim(void)
     static const int64_t prios[4] = PRIOS;
     int64_t common = SAMEPRIO ? sym_i64("prio") : 0;
     for (int i = 0; i < NPROC; i++) {
-        P[i].p = cmb_process_create();
+        P[i].p = cmb_process_create(); P[i].ppre_time = -1.0; P[i].prio_time = -1.0;
         P[i].prio = SAMEPRIO ? common : PRIOSYM ? sym_i64("prio") : prios[i];
         cmb_process_initialize(P[i].p, "p", body, (void *)(intptr_t)i, P[i].prio);
         cmb_process_start(P[i].p);
@@ -685,7 +776,10 @@ void h_sim(void)
         case W_OGET: sym_assert(cmb_objectqueue_length(OQ) == 0, "no getter stays blocked on a queue with content"); break;
         case W_QPUT: sym_assert(cmb_priorityqueue_space(PQ) == 0, "no putter stays blocked on a priority queue with space"); break;
         case W_QGET: sym_assert(cmb_priorityqueue_length(PQ) == 0, "no getter stays blocked on a priority queue with content"); break;
-        case W_CWAIT: sym_assert(P[i].wait_arg != 1, "a condition waiter whose predicate was true at a signal is resumed"); break;
+        case W_CWAIT:
+            sym_tag("forwarded_signal", P[i].c_must && P[i].c_src == 2);
+            sym_assert(!P[i].c_must, "a condition waiter whose predicate was true at a signal is resumed");
+            break;
         case W_YIELD: break;
         default: sym_assert(0, "unfinished process is not blocked on anything"); break;
         }
@@ -712,17 +806,12 @@ static void check_history(struct cmb_timeseries *ts, const struct traj *tr, cons
     (void)what;
     uint64_t n = cmb_timeseries_count(ts);
     sym_assert(n >= 1, "history has the start sample");
-    /* value of the recorded step function at every shadow change point, and vice versa at every sample */
     double prev_t = 0.0;
     for (uint64_t k = 0; k < n; k++) {
-        double t = ts->ta[k], x = ts->ds.xa[k];
-        sym_assert(t >= prev_t, "sample times are non-decreasing");
-        prev_t = t;
-        /* the true value right after time t (last shadow point with time <= t) */
-        double truth = 0.0;
-        for (int m = 0; m < tr->n; m++) if (tr->t[m] <= t) truth = tr->x[m];
-        if (k + 1 == n || ts->ta[k + 1] > t) sym_assert(x == truth, "the last sample of an instant equals the true state");
+        sym_assert(ts->ta[k] >= prev_t, "sample times are non-decreasing");
+        prev_t = ts->ta[k];
     }
+    /* the recorded step function at the end of every instant equals the observed state */
     for (int m = 0; m < tr->n; m++) {
         if (m + 1 < tr->n && tr->t[m + 1] == tr->t[m]) continue;     /* superseded within the same instant */
         double t = tr->t[m], rec = -1.0;
@@ -731,7 +820,7 @@ static void check_history(struct cmb_timeseries *ts, const struct traj *tr, cons
     }
     /* exact time average: integral of the shadow step function over [start, stop] */
     double t0 = tr->n ? tr->t[0] : 0.0, t1 = cmb_time();
-    if (t1 > t0) {
+    if (CONCRETE_D && t1 > t0) {
         double integral = 0.0;
         for (int m = 0; m < tr->n; m++) {
             double te = m + 1 < tr->n ? tr->t[m + 1] : t1;
@@ -741,7 +830,8 @@ static void check_history(struct cmb_timeseries *ts, const struct traj *tr, cons
         cmb_wtdsummary_initialize(&ws);
         cmb_timeseries_summarize(ts, &ws);
         double mean = cmb_wtdsummary_mean(&ws);
-        sym_assert(mean * (t1 - t0) == integral, "time-weighted mean equals the exact time average");
+        double err = mean * (t1 - t0) - integral;
+        sym_assert(err <= 1e-9 && err >= -1e-9, "time-weighted mean equals the exact time average");
     }
 }
 
